@@ -461,7 +461,7 @@ private:
         std::size_t stream_pos = this->_info._offset;
 
         using Buf_type = std::vector<rgba8_pixel_t>;
-        Buf_type buf( this->_settings._dim.x );
+        Buf_type buf( this->_info._width );
         Buf_type::iterator dst_it  = buf.begin();
         Buf_type::iterator dst_end = buf.end();
 
